@@ -81,6 +81,35 @@ theorem creation_is_local (db : DB) (u c g : Str) (k : Kind) (x : Str)
     (hx : ∀ m, x ≠ joinKey ([u, c, g].take m)) : lookup (addGrant db u c g k) x = lookup db x :=
   create_is_local db u c g k x hx
 
+/-- **every stored node is reachable from its parent.** After a session is created the user node
+    lists the client node and the client node lists the grant node — for every identifier string
+    (no guard needed: the three keys differ by their lengths), provided whatever was stored before
+    under the user's and the client's key was a user / client node -/
+theorem created_grant_is_linked (db : DB) (u c g : Str) (k : Kind)
+    (hwf : ∀ j, j < 2 → ∀ n, lookup db (K [u, c, g] j) = some n → isInner n = true) :
+    ∀ j, j + 1 < 3 →
+      ∃ n, lookup (addGrant db u c g k) (K [u, c, g] j) = some n ∧ isInner n = true ∧ K [u, c, g] (j+1) ∈ n.subs :=
+  create_links db u c g k hwf
+
+/-- non-vacuity: the empty database meets the premise -/
+example (u c g : Str) : ∀ j, j < 2 → ∀ n, lookup ([] : DB) (K [u, c, g] j) = some n → isInner n = true := by
+  intro j _ n h; simp [lookup] at h
+
+/-- **a removed session is gone, and nothing else is touched.** Removing a session whose leaf is a
+    grant: afterwards nothing is stored under its key, and every node outside the branch (the keys of
+    the prefixes of the path) is exactly what it was — for every identifier string -/
+theorem removed_grant_is_gone (db : DB) (path : List Str) (db' : DB)
+    (hleaf : ∀ n, lookup db (joinKey path) = some n → isInner n = false)
+    (hpresent : hasKey db (path.headD []) = true) (hlen : 2 ≤ path.length) (hd : delete db path = some db') :
+    lookup db' (joinKey path) = none ∨ lookup db (joinKey path) = none :=
+  remove_grant_removes db path db' hleaf hpresent hlen hd
+
+theorem removal_is_local (db : DB) (path : List Str) (db' : DB) (x : Str)
+    (hx : ∀ m, x ≠ joinKey (path.take m))
+    (hleaf : ∀ n, lookup db (joinKey path) = some n → isInner n = false)
+    (hlen : 2 ≤ path.length) (hd : delete db path = some db') : lookup db' x = lookup db x :=
+  remove_grant_is_local db path db' x hx hleaf hlen hd
+
 /-- non-vacuity of the locality statement: another user's grant key is outside the branch -/
 example : ∀ m, (joinKey [[98], [99], [103]]) ≠ joinKey ([[97], [99], [103]].take m) := by
   intro m
